@@ -112,6 +112,91 @@ def dags(nmods):
         yield [p for k, p in enumerate(pairs) if mask & (1 << k)]
 
 
+# ---- modules with the same name below different packages / directories: std.math, self.math, self.dir.math are three modules
+SN_FILES = {
+    "/v/math.lay": "print('user math body'); let n = 0; export fn abs(x) { n = n + 1; return 'user abs ' + n.str(); } export let tag = 'user';",
+    "/v/dir.lay": "print('dir body'); export let dirval = 'dv';",
+    "/v/dir/math.lay": "print('dir math body'); let k = 0; export fn abs(x) { k = k + 1; return 'dir abs ' + k.str(); } export let tag = 'dir';",
+    "/v/geometry.lay": "print('geometry body'); import std.math as gm; export fn dist(a, b) { return gm.abs(a - b); }",
+    "/v/ugeo.lay": "print('ugeo body'); import self.math as gm; export fn dist(a, b) { return gm.abs(a - b); }",
+    "/v/dgeo.lay": "print('dgeo body'); import self.dir.math:{abs}; export fn dist(a, b) { return abs(a - b); }",
+}
+SN_IMPORTS = ["std", "user", "dir", "geometry", "ugeo", "dgeo", "std_sel", "user_sel", "dir_sel"]
+
+
+def samename_program(seq):
+    """returns (main source, expected stdout): every import is used right away; bodies run once, counters are shared"""
+    src, out = ["print('main start');"], ["main start"]
+    loaded = set()
+    cnt = {"user": 0, "dir": 0}
+
+    def load(m):
+        if m in loaded:
+            return
+        if m == "dirpkg":
+            out.append("dir body")
+        elif m == "dir":
+            load("dirpkg")
+            out.append("dir math body")
+        elif m == "user":
+            out.append("user math body")
+        elif m in ("geometry", "ugeo", "dgeo"):
+            out.append(m + " body")
+            load({"geometry": "std", "ugeo": "user", "dgeo": "dir"}[m])
+        loaded.add(m)
+
+    def call(m):
+        if m == "std":
+            return "7"
+        cnt[m] += 1
+        return "%s abs %d" % (m, cnt[m])
+    for k, imp in enumerate(seq):
+        if imp in ("std", "user", "dir"):
+            path = {"std": "std.math", "user": "self.math", "dir": "self.dir.math"}[imp]
+            src.append("import %s as m%d; print(m%d.abs(3 - 10));" % (path, k, k))
+            load(imp)
+            out.append(call(imp))
+        elif imp.endswith("_sel"):
+            base = imp[:-4]
+            path = {"std": "std.math", "user": "self.math", "dir": "self.dir.math"}[base]
+            src.append("import %s:{abs as a%d}; print(a%d(3 - 10));" % (path, k, k))
+            load(base)
+            out.append(call(base))
+        else:
+            src.append("import self.%s as g%d; print(g%d.dist(3, 10));" % (imp, k, k))
+            load(imp)
+            out.append(call({"geometry": "std", "ugeo": "user", "dgeo": "dir"}[imp]))
+    src.append("print('main end');")
+    out.append("main end")
+    return "\n".join(src) + "\n", "\n".join(out) + "\n"
+
+
+# ---- module bodies that use fibers and channels, imported by a program that has fibers of its own: the body still runs to its
+# end, once, before the importer continues (the order in which other fibers print is the scheduler's business and is not compared)
+MF_BODIES = {
+    "plain": "let v = 42;",
+    "launch_recv": "let c = chan(); fn produce(c) { c <- 42; } launch produce(c); let v = <- c;",
+    "launch_recv_buf": "let c = chan(1); fn produce(c) { c <- 42; } launch produce(c); let v = <- c;",
+    "buffered_self": "let c = chan(1); c <- 42; let v = <- c;",
+    "two_rounds": "let c = chan(); let d = chan(); fn echo(c, d) { d <- (<- c) + 1; } launch echo(c, d); c <- 41; let v = <- d;",
+    "launch_only": "fn side() { print('side ran'); } launch side(); let v = 42;",
+}
+MF_BLOCKING = ("launch_recv", "launch_recv_buf", "two_rounds")
+MF_PRE = {"none": "", "helper": "fn helper() { print('helper'); }\nlaunch helper();\n", "two_helpers": "fn helper() { print('helper'); }\nlaunch helper();\nlaunch helper();\n",
+          "helper_chan": "let hc = chan(1);\nfn helper(hc) { hc <- 'h'; }\nlaunch helper(hc);\n"}
+MF_FORMS = {"whole": ("import self.m;", "m.val", "m.get()"), "renamed": ("import self.m as mm;", "mm.val", "mm.get()"), "selected": ("import self.m:{val, get};", "val", "get()")}
+
+
+def modfiber_files(body, pre, form, twice):
+    imp, val, get = MF_FORMS[form]
+    m = "print('m start');\n%s\nexport let val = v;\nlet calls = 0;\nexport fn get() { calls = calls + 1; return [v, calls]; }\nprint('m end');\n" % MF_BODIES[body]
+    main = MF_PRE[pre] + imp + "\nprint('main continues', %s, %s);\n" % (val, get)
+    if twice:
+        main += "fn later() { print('later', %s); }\nlater();\n" % get
+    main += ("let hv = <- hc; print('helper value', hv);\n" if pre == "helper_chan" else "") + "print('main end');\n"
+    return {"/v/main.lay": main, "/v/m.lay": m}
+
+
 class C17(Check):
     id = "C17"
     level = "exploration"
@@ -134,12 +219,23 @@ class C17(Check):
                                 for ef in eforms:
                                     for dup in ((None,) if not th else (None, 0)) + ((0,) if not th and r == 1 else ()):
                                         yield ("graph", nmods, tuple(es), ef, targets, fm, subdir, dup, None)
+        # same-named modules below different packages and directories: every ordered selection of 2-3 (4 thorough) of 9 imports
+        for r in ((2, 3, 4) if th else (2, 3)):
+            for seq in itertools.permutations(SN_IMPORTS, r):
+                yield ("samename", seq)
+        for body in MF_BODIES:
+            for pre in MF_PRE:
+                for form in MF_FORMS:
+                    for twice in (False, True):
+                        yield ("modfiber", body, pre, form, twice)
         for neg in ("priv_whole", "hidden_whole", "priv_selected", "unknown_selected", "missing_module", "missing_submodule", "cnt_unreachable"):
             for subdir in (None, "a"):
                 for form in FORMS:
                     yield ("graph", 1, (), (), ("a",), (form,), subdir, None, neg)
 
     def files(self, spec):
+        if spec[0] == "samename":
+            return None
         _, nmods, es, ef, targets, fm, subdir, dup, neg = spec
         edges = {}
         for (src, dst), f in zip(es, ef):
@@ -151,10 +247,21 @@ class C17(Check):
         return build_graph(nmods, edges, main_imports, subdir, neg)
 
     def describe(self, spec):
+        if spec[0] == "modfiber":
+            return "module body=%s imported (%s) by a program with fibers of its own=%s, used again later=%s" % (spec[1], spec[3], spec[2], spec[4])
+        if spec[0] == "samename":
+            return "same-named modules (std.math, self.math, self.dir.math and three importers of them), main imports in order: %s" % list(spec[1])
         _, nmods, es, ef, targets, fm, subdir, dup, neg = spec
         return "modules=%d edges=%s forms=%s main imports=%s subdir=%s duplicate=%s negative=%s" % (nmods, list(es), list(ef), list(zip(targets, fm)), subdir, dup, neg)
 
     def build(self, spec):
+        if spec[0] == "modfiber":
+            return [{"files": modfiber_files(*spec[1:]), "entry": "/v/main.lay", "step_limit": 300000}], ("modfiber", None, None)
+        if spec[0] == "samename":
+            src, want = samename_program(spec[1])
+            files = dict(SN_FILES)
+            files["/v/main.lay"] = src
+            return [{"files": files, "entry": "/v/main.lay", "step_limit": 300000}], ("ok", want, None)
         files_ast = self.files(spec)
         srcs = {p: L.render(st)[0] for p, st in files_ast.items()}
         try:
@@ -166,6 +273,8 @@ class C17(Check):
 
     def judge(self, spec, exp, rs):
         r = rs[0]
+        if spec[0] == "modfiber":
+            return self.judge_modfiber(spec, r)
         cls, out, ecls = exp
         if cls == "unsupported":
             v = Verdict(False, False, "reference", "reference cannot evaluate: " + out)
@@ -178,7 +287,40 @@ class C17(Check):
         if not ok:
             return Verdict(False, True, "mismatch", "expected class=%s%s out=%r; got class=%s out=%r err=%r %s" % (
                 cls, "(%s)" % ecls if ecls else "", out, r.get("class"), r.get("out"), r.get("err", "")[-200:], r.get("panic") or ""))
+        if spec[0] == "samename":
+            return Verdict(True, True, cls)
         return Verdict(True, spec[1] > 1 or spec[7] is not None or spec[8] is not None, cls)
+
+
+def _judge_modfiber(self, spec, r):
+    lines = r.get("out", "").split("\n")
+    problems = []
+    if r.get("class") != "ok":
+        problems.append("program ended with class=%s" % r.get("class"))
+    if lines.count("m start") != 1 or lines.count("m end") != 1:
+        problems.append("the module body ran %d time(s) to its start and %d time(s) to its end" % (lines.count("m start"), lines.count("m end")))
+    cont = [i for i, l in enumerate(lines) if l.startswith("main continues")]
+    if cont and "m end" in lines and lines.index("m end") > cont[0]:
+        problems.append("the importer continued before the module body had finished")
+    if not cont and r.get("class") == "ok":
+        problems.append("the importer never continued")
+    want = "main continues 42 [42, 1]"
+    if cont and lines[cont[0]] != want:
+        problems.append("the importer saw %r instead of %r" % (lines[cont[0]], want))
+    if spec[4] and r.get("class") == "ok" and "later [42, 2]" not in lines:
+        problems.append("a later use of the import does not see the module's state: %r" % [l for l in lines if l.startswith("later")])
+    if r.get("class") == "ok" and lines[-2:] != ["main end", ""]:
+        problems.append("main did not reach its end")
+    if problems:
+        v = Verdict(False, True, "modfiber", "; ".join(problems) + " | out=%r err=%r %s" % (r.get("out"), r.get("err", "")[-200:], r.get("panic") or ""))
+        # known finding: a sleeping importer is woken by ANY child fiber that completes, not only by the module's fiber
+        if spec[2] != "none" and spec[1] in MF_BLOCKING and r.get("class") in ("ok", "runtime_error", "deadlock"):
+            v.finding = "KF-C17-importer-woken-early"
+        return v
+    return Verdict(True, True, "modfiber:ok")
+
+
+C17.judge_modfiber = _judge_modfiber
 
 
 def main(tier):
@@ -186,6 +328,8 @@ def main(tier):
     chk = C17()
     chk.rule = ("all DAGs over 1-3 modules (+ main), every non-empty ordered selection of main's imports, import forms (quick: all 4 for single imports, 4 rotations otherwise; thorough: full product), "
                 "4 rotations of edge forms, with/without a sub-directory module, duplicate import with a second form, 7 negative families x 4 forms; "
+                "module bodies that launch fibers / block on channels x importer with 0-2 fibers of its own x 3 forms (body runs once, to its end, before the importer continues; interleaving of other fibers not compared); "
+                "same-named modules (std.math, self.math, self.dir.math, whole and selected, directly and through three importing modules): every ordered selection of 2-3 (4 thorough) of 9 imports; "
                 "non-trivial = graph with >= 2 modules, a duplicate import or a negative case")
     merged = explore(chk, tier, cap_s=(1500 if tier == "thorough" else 200))
     return report.finish(chk, tier, merged, t0)
